@@ -82,6 +82,11 @@ func lightOf(gen func(*rapid.T) Case) func(*rapid.T) Case {
 	return func(t *rapid.T) Case {
 		c := gen(t)
 		c.Light = true
+		// in a quarter of the cases directories hold 2-4 entries only, so that directories fill up, are retired
+		// and replaced (and re-activated by the cleaner) while the clients run
+		if rapid.IntRange(0, 3).Draw(t, "smallDirs") == 0 {
+			c.DirMax = rapid.IntRange(2, 4).Draw(t, "dirMax")
+		}
 		return c
 	}
 }
